@@ -105,6 +105,13 @@ CLAIMED = {
         "note": "Values after rename/move/duplicate are not decided; parser configuration during the rewrite is C10's rule. " + TRUST,
         "technique": "MIR match-arm coverage + control dependence (dominating branch on Eq with the sheet_index parameter)",
     },
+    "C27": {
+        "level": "Static decision of the guards at the writers of workbook structure (names validated+unique, fresh/captured sheet ids, "
+                 "cells enter the grid only through the validated update_cell, spill cells constructed only by the evaluator/importer).",
+        "note": "Sortedness/disjointness of cols, uniqueness of rows, index validity of styles/strings/formulas are value invariants of "
+                "loops and are not decided. Two generated-name exceptions with reasons. " + TRUST,
+        "technique": "who-may-write inventory + dominance of validators on the written value's provenance",
+    },
     "C28": {
         "level": "Static decision of the selection guards: after every sheet deletion the selection is written or clamped on all "
                  "paths; stores into the selected-sheet index are validated or clamps; stores into the selected cell/range are "
@@ -148,6 +155,12 @@ CLAIMED = {
                  "must-pass-through before Ok).",
         "note": "bitcode's codec is trusted; printer/parser agreement on the re-parsed R1C1 text is C09's subject. " + TRUST,
         "technique": "impl/ADT closure query + CFG dominance (must-pass-through) + provenance of encode/decode operands",
+    },
+    "C31": {
+        "level": "Static decision of spill bookkeeping guards: reset before relocation, no #SPILL! decision after a spill write, scan and "
+                 "write loops over identical ranges, constructors of Cell::SpillCell, ownership test in spill clean-up loops.",
+        "note": "Exactness of block contents and staleness across passes are not decided. Two single-site exceptions with reasons. " + TRUST,
+        "technique": "CFG reachability/dominance + who-may-construct + loop-body field-read analysis",
     },
     "C33": {
         "level": "Static decision that metadata is handled wherever cells are: displacement call-set agreement (TRIPLE), capture of "
